@@ -1590,7 +1590,7 @@ struct Gen {
   }
   std::vector<std::string> rootPool() {
     std::string w = kWork;
-    return {w + "/r", w + "/r/", w + "/r2", w + "/r/sub", w + "/r/sub/", w + "/rr/", w + "/r2//", w + "/r/sub/deep", w + "/r2/sub/", w, w + "/"};
+    return {w + "/r", w + "/r/", w + "/r2", w + "/r/sub", w + "/r/sub/", w + "/rr/", w + "/r2//", w + "/r/sub/deep", w + "/r2/sub/", "/", w, w + "/"};
   }
   void setStale(Cmd& c) {
     auto pool = stalePool();
@@ -1603,7 +1603,7 @@ struct Gen {
     if (rng.chance(650)) {
       auto rp = rootPool();
       int nr = (int)rng.range(1, 2);
-      for (int i = 0; i < nr; i++) c.roots.push_back(rp[rng.below(rp.size() - (rng.chance(900) ? 2 : 0))]);
+      for (int i = 0; i < nr; i++) c.roots.push_back(rp[rng.below(rp.size() - (rng.chance(900) ? 3 : 0))]);
     }
   }
   void buildStale() {
